@@ -26,27 +26,47 @@ Qed.
 Require Import Lemmas_Af.
 Ltac Zify.zify_post_hook ::= Z.div_mod_to_equations.
 
+(* the index and bit position of a code, in whichever of the usual forms the C code computes them *)
 Lemma quot8 v : 0 <= v < 256 -> to_u8 (Z.quot v 8) = v / 8.
 Proof. intros H. rewrite Z.quot_div_nonneg by lia. unfold to_u8. rewrite Z.mod_small; lia. Qed.
 Lemma rem8 v : 0 <= v < 256 -> to_u8 (Z.rem v 8) = v mod 8.
 Proof. intros H. rewrite Z.rem_mod_nonneg by lia. unfold to_u8. rewrite Z.mod_small; lia. Qed.
+Lemma shr3 v : 0 <= v < 256 -> Z.shiftr v 3 = v / 8.
+Proof. intros H. rewrite Z.shiftr_div_pow2 by lia. reflexivity. Qed.
+Lemma land7 v : 0 <= v < 256 -> Z.land v 7 = v mod 8.
+Proof. intros H. change 7 with (Z.ones 3). rewrite Z.land_ones by lia. reflexivity. Qed.
+Lemma u8_small x : 0 <= x < 256 -> to_u8 x = x.
+Proof. intros H. unfold to_u8. apply Z.mod_small. exact H. Qed.
+Lemma u32_small x : 0 <= x < 4294967296 -> to_u32 x = x.
+Proof. intros H. unfold to_u32. apply Z.mod_small. exact H. Qed.
+Lemma div8_range v : 0 <= v < 256 -> 0 <= v / 8 < 256.
+Proof. intros H. split; [apply Z.div_pos; lia|]. apply Z.div_lt_upper_bound; lia. Qed.
+Lemma mod8_range v : 0 <= v mod 8 < 256.
+Proof. pose proof (Z.mod_pos_bound v 8 ltac:(lia)). lia. Qed.
+
+(* bring index and bit position to v / 8 and v mod 8 *)
+Ltac norm8 H :=
+  rewrite ?Z.geb_leb, ?Z.gtb_ltb;
+  rewrite ?(Z.quot_div_nonneg _ 8), ?(Z.rem_mod_nonneg _ 8) by lia;
+  rewrite ?(shr3 _ H), ?(land7 _ H);
+  rewrite ?(u8_small _ (div8_range _ H)), ?(u8_small _ (mod8_range _)), ?(u32_small (_ / 8)), ?(u32_small (_ mod 8)) by
+      (first [apply div8_range; exact H | pose proof (div8_range _ H); pose proof (mod8_range); lia]).
 
 Theorem leaf_af_get a v : 0 <= v < 256 -> c_af_get a v = if af_get a v then 1 else 0.
 Proof.
-  intros H. unfold c_af_get, af_get, af_ok, af_mask. cbv zeta. rewrite Z.geb_leb, (quot8 v H), (rem8 v H).
+  intros H. unfold c_af_get, af_get, af_ok, af_mask. cbv zeta. norm8 H.
   destruct ((1 <=? v) && (v <=? 204)); reflexivity.
 Qed.
 
 Theorem leaf_af_set a v : length a = 26%nat -> Forall (fun x => 0 <= x < 256) a -> 0 <= v < 256 ->
   af_set a v = Some (c_af_set__buffer a v, negb (c_af_set__ret a v =? 0)).
 Proof.
-  intros Hl Hb H. unfold c_af_set__buffer, c_af_set__ret, c_af_set, af_set, af_ok, af_mask. cbv zeta.
-  rewrite Z.geb_leb, (quot8 v H), (rem8 v H).
+  intros Hl Hb H. unfold c_af_set__buffer, c_af_set__ret, c_af_set, af_set, af_ok, af_mask. cbv zeta. norm8 H.
   destruct ((1 <=? v) && (v <=? 204)) eqn:E; [|reflexivity].
   assert (Hi : (Z.to_nat (v / 8) < length a)%nat) by (rewrite Hl; lia).
   destruct (nth_error a (Z.to_nat (v / 8))) as [byte|] eqn:En; [|apply nth_error_None in En; lia].
   rewrite (nth_error_nth _ _ 0 En).
   pose proof (nth_byte a (Z.to_nat (v / 8)) Hb) as Hn. rewrite (nth_error_nth _ _ 0 En) in Hn.
   destruct (byte_facts byte (v mod 8) Hn ltac:(lia)) as [_ [R _]].
-  unfold to_u8. rewrite (Z.mod_small (Z.lor byte (Z.shiftr 128 (v mod 8))) 256) by exact R. reflexivity.
+  rewrite ?(u8_small _ R). reflexivity.
 Qed.
